@@ -245,6 +245,22 @@ def run_replace(ctx, structure, search, replace, spec, script, fraction=None, re
             r = c["result"]
             run.found = ([tuple(int(i) for i in t) for t in r[0]], np.asarray(r[1], float), r[2]) if isinstance(r, tuple) else None
     run.sampled = ctx.rng.last_sample if kw["replace_fraction"] < 1.0 else None
+    if run.found is None and (run.exc is None or type(run.exc).__name__ == "AtomsShouldNotBeDeletedTwice"):
+        # the inner search was not observable at the tap (e.g. the code was restructured): reconstruct what it found by
+        # running the public search under the same script (per-site decision streams make the tie-breaks identical)
+        ctx.count("tap_not_fired")
+        sample_keep = run.sampled
+        ctx.rng.reset(script)
+        try:
+            # same input as the replacement hands to its search: the pattern with its first atom at the origin
+            search0 = search.copy()
+            search0.translate(-np.array(search0.positions[0], float))
+            r = mofun.find_pattern_in_structure(structure, search0, atol=kw["atol"], return_positions_and_quats=True,
+                                                **{k: v for k, v in kw.items() if k in ("axisp1_idx", "axisp2_idx", "opoint_idx")})
+            run.found = ([tuple(int(i) for i in t) for t in r[0]], np.asarray(r[1], float), r[2])
+        except Exception:
+            run.found = None
+        run.sampled = sample_keep
     if run.found is not None:
         M = len(run.found[0])
         run.selected = list(range(M)) if run.sampled is None else [int(i) for i in run.sampled]
